@@ -5,6 +5,8 @@ that returns a Hypothesis-drawn list of paths, each exactly once; the oracle is 
 """
 from __future__ import annotations
 
+import math
+
 import numpy as np
 from hypothesis import strategies as st
 
@@ -216,6 +218,86 @@ def classify(case):
     return labels, nt
 
 
+# ------------------------------------------------------------------------------------ per-path time grids
+@st.composite
+def strat_grids(draw, tier):
+    n = draw(st.integers(2, 40))
+    T = draw(_f(0.5, 2.0))
+    lengths = draw(st.lists(st.integers(0, 3), min_size=n, max_size=n))  # interior points per path (often equal)
+    paths = []
+    for k in lengths:
+        inner = sorted({float(f"{draw(st.floats(0.02, 0.98)) * T:.6g}") for _ in range(k)})
+        vals = [draw(st.floats(-0.4, 0.4)) for _ in range(len(inner) + 1)]
+        paths.append({"inner": inner, "jumps": [float(f"{v:.6g}") for v in vals]})
+    return {"n": n, "T": T, "paths": paths, "x0": draw(_f(20.0, 150.0)), "drift": draw(st.sampled_from([0.0, 5.0, -12.0, 40.0])),
+            "kind": draw(st.sampled_from(["asian-call", "spot-call", "barrier"])), "strike_rel": draw(_f(0.7, 1.3)),
+            "notional": draw(st.sampled_from([1.0, 7.0])), "df": draw(_f(0.5, 1.0)), "spot_stats": draw(st.booleans())}
+
+
+def body_grids(case):
+    """every simulated path carries its own time grid (jump-time simulation): the payoff of a path is evaluated on
+    deterministic part (x0 + drift t on *its* times) + its stochastic part, whatever the grids of the paths before it"""
+    from rpylib.montecarlo.configuration import ConfigurationStandard
+    from rpylib.montecarlo.path import StochasticJumpPath
+    from rpylib.montecarlo.standard.engine import Engine
+    from rpylib.product.payoff import Barrier, BarrierType, PayoffType, Vanilla
+    from rpylib.product.product import Product
+    from rpylib.product.underlying import Asian, Spot
+
+    out = []
+    n, T, x0, mu = case["n"], case["T"], case["x0"], case["drift"]
+    k = case["strike_rel"] * x0
+    lib_paths, samples = [], []
+    for p in case["paths"]:
+        times = np.array([0.0] + p["inner"] + [T])
+        # the stochastic part: running sum of scaled jumps at the interior points (the last value is carried to T)
+        steps = np.array(p["jumps"][:len(p["inner"])], dtype=float) * 0.1 * x0
+        stoch = np.concatenate(([0.0], np.cumsum(steps), [np.sum(steps)]))
+        lib_paths.append(StochasticJumpPath(times, np.zeros(len(times)), stoch))
+        full = x0 + mu * times + stoch
+        if case["kind"] == "asian-call":
+            u = float(np.sum(full * np.diff(times, prepend=0.0)) / times[-1])
+            y = max(u - k, 0.0)
+        elif case["kind"] == "spot-call":
+            y = max(full[-1] - k, 0.0)
+        else:  # down-and-out call, barrier at 0.9 x0
+            y = 0.0 if np.any(full <= 0.9 * x0) else max(full[-1] - k, 0.0)
+        samples.append(case["notional"] * y * case["df"])
+    Y = np.array(samples)
+    proc = ScriptedProcess(lib_paths, df=case["df"], x0=x0, drift=mu)
+    if case["kind"] == "asian-call":
+        und, payoff = Asian(), Vanilla(strike=k, payoff_type=PayoffType.CALL)
+    elif case["kind"] == "spot-call":
+        und, payoff = Spot(), Vanilla(strike=k, payoff_type=PayoffType.CALL)
+    else:
+        und, payoff = Spot(), Barrier(strike=k, payoff_type=PayoffType.CALL, barrier_type=BarrierType.DOWN_AND_OUT, barrier=0.9 * x0)
+    product = Product(payoff_underlying=und, payoff=payoff, maturity=T, notional=case["notional"])
+    config = ConfigurationStandard(mc_paths=n, seed=None, activate_spot_statistics=case["spot_stats"], nb_of_processes=1)
+    stats = Engine(configuration=config, process=proc).price(product)
+    detail = f"case={ {k_: v for k_, v in case.items() if k_ != 'paths'} } first paths={case['paths'][:3]}"
+    stored = np.asarray(stats._payoff_statistics.stats, dtype=float).ravel()
+    scale = 1.0 + np.abs(Y).max()
+    if stored.shape != Y.shape or not np.allclose(stored, Y, rtol=1e-12, atol=1e-12 * scale):
+        j = int(np.argmax(np.abs(stored - Y))) if stored.shape == Y.shape else -1
+        out.append(Violation(f"C07/per-path-grids/{case['kind']}/sample-is-not-the-payoff-of-its-own-path",
+                             f"path {j}: stored {stored[j] if j >= 0 else stored}, payoff of that path {Y[j] if j >= 0 else Y}; {detail}"))
+        return out
+    price = float(np.asarray(stats.price(no_control_variates=True)).ravel()[0])
+    err = float(np.asarray(stats.mc_stddev(no_control_variates=True)).ravel()[0])
+    if abs(price - Y.mean()) > 1e-12 * scale or abs(err - Y.std(ddof=1) / math.sqrt(n)) > 1e-10 * scale:
+        out.append(Violation(f"C07/per-path-grids/{case['kind']}/price-or-error", f"{price}, {err} vs {Y.mean()}, "
+                                                                                   f"{Y.std(ddof=1) / math.sqrt(n)}; {detail}"))
+    return out
+
+
+def classify_grids(case):
+    lens = [len(p["inner"]) for p in case["paths"]]
+    rep = any(a == b and pa["inner"] != pb["inner"] for a, b, pa, pb in zip(lens, lens[1:], case["paths"], case["paths"][1:]))
+    labels = [case["kind"], "drift" if case["drift"] else "no-drift",
+              "consecutive-grids-of-equal-length" if rep else "lengths-always-change"]
+    return labels, rep and bool(case["drift"])
+
+
 SUBCHECKS = [
     SubCheck("textbook-estimators", body, classify,
              rule="1..200 drawn paths (1-3 assets, identity or log representation, incl. constant payoffs) x "
@@ -223,6 +305,13 @@ SUBCHECKS = [
                   "controls (forward, call, put on the same path; given prices or prices equal to the sample means) x "
                   "spot statistics on/off; non-trivial = >= 3 paths with non-constant payoff and (vector payoff or "
                   ">= 1 control)",
-             strategy=strat_case, budget={"quick": 1600, "thorough": 30000},
+             strategy=strat_case, budget={"quick": 4800, "thorough": 30000},
              essential_labels=("payoff-dim=2+", "controls=2", "controls=3", "price=sample-mean")),
+    SubCheck("per-path-time-grids", body_grids, classify_grids,
+             rule="2..40 scripted paths, each on its own time grid (0..3 interior points, consecutive grids often of equal "
+                  "length but different dates), process with x0 and a linear drift, Asian call / spot call / "
+                  "down-and-out call: every stored sample is the payoff of its own path (deterministic part on that "
+                  "path's times), price and error are their mean and standard error; non-trivial = drift and two "
+                  "consecutive grids of equal length with different dates",
+             strategy=strat_grids, budget={"quick": 2400, "thorough": 12000}, shards={"quick": 16, "thorough": 16}),
 ]
